@@ -1,18 +1,25 @@
 #!/bin/bash
-# tools/seed_regress.sh [seed-id...] : re-apply every kept seeded change to /repo, run the quick check(s) of its
-# property, revert; a seed must be reported (rc=1).  Prints one line per seed.  /repo must be clean.
+# tools/seed_regress.sh [seed-id...] : apply every kept seeded change to a scratch worktree of /repo's HEAD and
+# run the quick check(s) of its property against that worktree (VERIF_REPO); a seed must be reported (rc=1).
+# /repo, the registered evidence files and the replay directory are not touched.  One line per seed.
 cd "$(dirname "$0")/.."
 export GOFLAGS=-mod=mod GOPROXY=off GOSUMDB=off GOTOOLCHAIN=local
-[ -n "$(git -C /repo status --short)" ] && { echo "/repo is not clean"; exit 2; }
 ids="$@"; [ -z "$ids" ] && ids=$(ls seeded | grep -v '^_')
 for s in $ids; do
-  d=seeded/$s; prop=${s%%-*}
-  if ! git -C /repo apply --check $PWD/$d/patch.diff 2>/dev/null; then echo "$s DOES-NOT-APPLY"; continue; fi
-  git -C /repo apply $PWD/$d/patch.diff
-  if ! (cd /repo && go build ./... 2>/dev/null); then echo "$s DOES-NOT-BUILD"; git -C /repo checkout -- .; continue; fi
-  timeout 1800 bin/check $prop --tier quick > /tmp/seedreg-$s.log 2>&1; rc=$?
-  git -C /repo checkout -- .
-  echo "$s $prop rc=$rc $(grep -c '^VIOLATION' /tmp/seedreg-$s.log) violation line(s)"
+  d=$PWD/seeded/$s; prop=${s%%-*}
+  WT=/tmp/seedreg-$s; rm -rf $WT; git -C /repo worktree prune
+  git -C /repo worktree add -q --detach $WT HEAD || { echo "$s WORKTREE-FAILED"; continue; }
+  if ! git -C $WT apply $d/patch.diff 2>/dev/null; then echo "$s DOES-NOT-APPLY"; git -C /repo worktree remove --force $WT; continue; fi
+  if ! (cd $WT && go build ./... 2>/dev/null); then echo "$s DOES-NOT-BUILD"; git -C /repo worktree remove --force $WT; continue; fi
+  checks=$(python3 -c "import json;print(' '.join(sorted({c.split(':')[0] for c in json.load(open('$d/meta.json'))['checks_run'].split() if c.endswith('rc=1')})))")
+  [ -z "$checks" ] && checks=$prop
+  res=""
+  for c in $checks; do
+    VERIF_REPO=$WT VERIF_EVID=/tmp/seedreg-$s-ev VERIF_REPLAYS=/tmp/seedreg-$s-rp timeout 1800 bin/check $c --tier quick > /tmp/seedreg-$s-$c.log 2>&1; rc=$?
+    res="$res $c:rc=$rc"
+  done
+  echo "$s$res"
+  tag=$(echo $WT | sed 's/[^A-Za-z0-9]\+/_/g; s/^_//')
+  rm -rf /tmp/seedreg-$s-ev /tmp/seedreg-$s-rp build/driver-$tag harness/go.$tag.mod harness/go.$tag.sum
+  git -C /repo worktree remove --force $WT
 done
-# leave the evidence of the unchanged tree behind
-for p in $(for s in $ids; do echo ${s%%-*}; done | sort -u); do bin/check $p --tier quick > /dev/null 2>&1; done
